@@ -34,7 +34,9 @@ Toks       == {"A", "B", "N", "P1", "P2", "E"}
 (*   inv_body / inv_param          POST /items with a schema-violating body / query param   *)
 (*   inv_pathlevel  GET /plain/abc (path-level integer parameter violated)                  *)
 (*   inv_security   GET /secure    (callback rejects)                                       *)
-ValidClasses == {"valid_post", "valid_plain", "valid_secure"}
+(*   valid_upgrade  valid_post carrying "Connection: Upgrade" and "Upgrade: websocket" -- headers a client chooses;     *)
+(*                  the handler under test is an ordinary HTTP handler, so they change nothing                        *)
+ValidClasses == {"valid_post", "valid_plain", "valid_secure", "valid_upgrade"}
 NotFoundClasses == {"nf_path", "nf_method"}
 InvalidClasses == {"inv_body", "inv_param", "inv_pathlevel", "inv_security"}
 ReqClasses == ValidClasses \cup NotFoundClasses \cup InvalidClasses
@@ -179,7 +181,8 @@ FailedV(cfg, scr, obs) ==
 (* strict_valid_exact compares status and body only: the strict wrapper defers WriteHeader, *)
 (* so headers the handler sets after its own WriteHeader still reach the client; the       *)
 (* property speaks of status and body.                                                     *)
-Failed(cfg, scr, obs) == IF cfg.gate = "vhandler" THEN FailedVH(cfg, scr, obs) ELSE FailedV(cfg, scr, obs)
+IsVH(c) == c.gate \in {"vhandler", "vhandler_mw"}
+Failed(cfg, scr, obs) == IF IsVH(cfg) THEN FailedVH(cfg, scr, obs) ELSE FailedV(cfg, scr, obs)
 Contract(cfg, scr, obs) == Failed(cfg, scr, obs) = {}
 
 -----------------------------------------------------------------------------
@@ -200,12 +203,14 @@ vars == <<cfg, phase, w, hdr, script, cOut, invoked, errs, logs>>
 WInit == [hw |-> FALSE, st |-> 0, buf |-> <<>>]
 
 Init ==
-   /\ cfg \in [strict : BOOLEAN, reqClass : ReqClasses, errMode : ErrModes, gate : {"validator", "vhandler"},
+   \* gate "vhandler_mw": ValidationHandler.Middleware(next) around the handler under test, created next to a second
+   \* wrapper of the SAME ValidationHandler around another handler (each wrapper must run its own handler)
+   /\ cfg \in [strict : BOOLEAN, reqClass : ReqClasses, errMode : ErrModes, gate : {"validator", "vhandler", "vhandler_mw"},
                 opt : {"none", "include_status", "exclude_body"}, primer : Primers]
    \* history: a Validator serves many requests; what it did for an earlier one (the primer) never shows in a later one
    /\ (cfg.primer # "none" => cfg.gate = "validator" /\ cfg.strict /\ cfg.errMode = "custom" /\ cfg.opt = "none"
                                /\ cfg.reqClass \in {"valid_post", "inv_body"})
-   /\ (cfg.gate = "vhandler" => ~cfg.strict /\ cfg.errMode = "default" /\ cfg.opt = "none")
+   /\ (cfg.gate \in {"vhandler", "vhandler_mw"} => ~cfg.strict /\ cfg.errMode = "default" /\ cfg.opt = "none")
    /\ (cfg.opt # "none" => cfg.strict /\ cfg.errMode = "custom" /\ cfg.reqClass = "valid_post")   \* options matter for the strict verdict
    /\ phase = "start" /\ w = WInit /\ hdr = "none" /\ script = <<>> /\ cOut = <<>>
    /\ invoked = 0 /\ errs = <<>> /\ logs = <<>>
@@ -227,7 +232,7 @@ Gate ==   \* FindRoute / ValidateRequest fail: log, errFunc, return
    /\ phase = "start" /\ cfg.reqClass \notin ValidClasses
    /\ LET status == ExpectedGate(cfg)
           ef == ErrFuncOut(status, hdr) IN
-      IF cfg.gate = "vhandler"
+      IF IsVH(cfg)
       THEN \* ErrorEncoder: some error status and body (not modelled further)
            /\ cOut' = cOut \o <<[e |-> "WH", s |-> VHStatus(cfg.reqClass), ct |-> "errjson"], [e |-> "W", data |-> "?", ct |-> "errjson"]>>
            /\ hdr' = "errjson" /\ UNCHANGED <<errs, logs>>
@@ -267,7 +272,7 @@ DirectStep(ws, h, c) ==
 
 HandlerCall(c) ==
    /\ phase = "handler"
-   /\ LET r == IF cfg.gate = "vhandler" THEN DirectStep(w, hdr, c) ELSE WrapStep(cfg.strict, w, hdr, c) IN
+   /\ LET r == IF IsVH(cfg) THEN DirectStep(w, hdr, c) ELSE WrapStep(cfg.strict, w, hdr, c) IN
       /\ w' = r.w /\ hdr' = r.hdr /\ cOut' = cOut \o r.out
    /\ script' = Append(script, c)
    /\ UNCHANGED <<cfg, phase, invoked, errs, logs>>
@@ -283,7 +288,7 @@ WStatus(ws) == IF ws.st = 0 /\ ZeroStatusFix /\ cfg.strict THEN 200 ELSE ws.st
 
 RespCheckFrom(ph) ==
    /\ phase = ph /\ phase' = "done"
-   /\ LET ok == cfg.gate = "vhandler" \/ RespValidOpt(cfg.opt, WStatus(w), hdr, Str(w.buf)) IN
+   /\ LET ok == IsVH(cfg) \/ RespValidOpt(cfg.opt, WStatus(w), hdr, Str(w.buf)) IN
       IF ok THEN
          /\ cOut' = IF cfg.strict
                     THEN cOut \o <<[e |-> "WH", s |-> WStatus(w), ct |-> hdr],
